@@ -12,7 +12,7 @@ import gen_kern as G
 ID = "C09"
 LEAN_MODULES = ["CatiiProps.C09"]
 RULE = ("same exhaustive spaces as C08 (every empty/non-empty combination and exhaustion order up to 6/8 elements) plus "
-        "unsorted and duplicate-carrying random arrays; each case runs the bounds-checked twin (IndexError per "
+        "random pairs over eleven overlap patterns (incl. lengths 1-4 against 65-5000), unsorted and duplicate-carrying random arrays; each case runs the bounds-checked twin (IndexError per "
         "out-of-range source-level access) and the model (Err per checked access); non-trivial = at least one operand "
         "non-empty; distinct by input")
 ASSUMPTIONS = ["Cython lowers each source-level index expression to one access of that element; gcc preserves it",
@@ -66,6 +66,7 @@ def run(ctx):
         len(subs), G.universe(n_u)))
     for _ in range(ctx.n(300)):
         kind, a, b = G.random_pair(ctx.rng, maxlen=ctx.rng.choice([8, 60, 300]))
+        ctx.hit("pattern:" + kind)
         for fn in FN2:
             one(fn, a, b)
     # unsorted / duplicate inputs: outside C08's precondition but inside C09's theorem
